@@ -921,6 +921,18 @@ def CustomObservable(type='x-custom-observable', properties=None, id_contrib_pro
             ),
         )
         if extension_name:
+            if '--' not in extension_name:
+                raise ValueError(
+                    "Invalid extension name '%s': must be the id of an "
+                    "extension definition" % extension_name,
+                )
+            cls.with_extension = extension_name
+
+        # The observable first: if it is refused, the extension must not
+        # stay behind in the registry.
+        new_type = _custom_observable_builder(cls, type, _properties, '2.1', _Observable, id_contrib_props)
+
+        if extension_name:
             @CustomExtension(type=extension_name, properties={})
             class NameExtension:
                 extension_type = 'new-sco'
@@ -928,6 +940,5 @@ def CustomObservable(type='x-custom-observable', properties=None, id_contrib_pro
             extension = extension_name.split('--')[1]
             extension = extension.replace('-', '')
             NameExtension.__name__ = 'ExtensionDefinition' + extension
-            cls.with_extension = extension_name
-        return _custom_observable_builder(cls, type, _properties, '2.1', _Observable, id_contrib_props)
+        return new_type
     return wrapper
